@@ -84,6 +84,21 @@ func (r *ContentReader) parseComments() {
 		return
 	}
 
+	// This line is excluded by ignore/begin or ignore/next-line, so nothing
+	// on it, including any pint comment, can be acted on.
+	// The only exception is ignore/end, which terminates ignore/begin.
+	if r.skipNext && !(r.inBegin && hasCommentType(lineComments, comments.IgnoreEndType)) {
+		if r.inBegin && hasCommentType(lineComments, comments.IgnoreBeginType) {
+			r.emptyCurrentLinePrefix(lineComments)
+		} else {
+			r.emptyCurrentLine(nil)
+		}
+		if r.autoReset {
+			r.skipNext = false
+		}
+		return
+	}
+
 	var found bool
 	var skip skipMode
 	for _, comment := range lineComments {
@@ -165,6 +180,27 @@ func (r *ContentReader) parseComments() {
 		if r.autoReset {
 			r.skipNext = false
 		}
+	}
+}
+
+func hasCommentType(lineComments []comments.Comment, t comments.Type) bool {
+	for _, c := range lineComments {
+		if c.Type == t {
+			return true
+		}
+	}
+	return false
+}
+
+// emptyCurrentLinePrefix blanks everything before the first comment.
+func (r *ContentReader) emptyCurrentLinePrefix(comments []comments.Comment) {
+	for _, c := range comments {
+		for i := 0; i < c.Offset && i < len(r.buf); i++ {
+			if r.buf[i] != '\n' {
+				r.buf[i] = ' '
+			}
+		}
+		return
 	}
 }
 
